@@ -72,7 +72,10 @@ fn strategy() -> BoxedStrategy<C01Case>
 {
     (
         any::<bool>(),
-        vec(vec((skind(), any::<u8>()), 0..=12), 1..=8),
+        prop_oneof![
+            9 => vec(vec((skind(), any::<u8>()), 0..=12), 1..=8),
+            1 => vec(vec((skind(), any::<u8>()), 0..=3), 20..=60),
+        ],
         prop_oneof![
             3 => Just(LockMode::Absent),
             2 => proptest::option::of(id_class()).prop_map(LockMode::Disabled),
@@ -178,7 +181,7 @@ fn build(case: &C01Case) -> (ModelTree, Vec<u32>, Option<u32>)
             items.push(Item::Filler("fn nothing() {}".into()));
         }
         files.push((
-            FILE_NAMES[fi % FILE_NAMES.len()].to_string(),
+            if fi < FILE_NAMES.len() { FILE_NAMES[fi].to_string() } else { format!("many/m{}/f{}.rs", fi % 7, fi) },
             FileSpec {
                 items,
                 eol: Eol::Lf,
@@ -373,7 +376,7 @@ pub fn run(env: &Env, rec: &Recorder) -> (String, Vec<&'static str>)
 {
     pbt(env, rec, "ids", env.cases(4000, 60_000), &strategy, &check);
     (
-        "trees of 1-8 files with 0-12 statements each; every statement independently missing / carrying an ID / ignored / unusable / commented-out; ID classes small-dense, sparse, 0, u32::MAX-j, arbitrary, duplicates; both styles; lock absent / disabled with arbitrary content / consistent (max+1+delta, incl. values whose range crosses u32::MAX). Oracle over the decomposed insertions: pairwise distinct, disjoint from IDs of recognised statements, within 1..=4294967295, above max existing (no lock) or >= lock; on exhaustion exit != 0 and still no duplicate / out-of-range ID. Non-trivial = distinct tree where >= 2 files receive insertions and IDs exist, or a boundary-class tree with missing references".to_string(),
+        "trees of 1-8 files with 0-12 statements each (10 %: 20-60 small files); every statement independently missing / carrying an ID / ignored / unusable / commented-out; ID classes small-dense, sparse, 0, u32::MAX-j, arbitrary, duplicates; both styles; lock absent / disabled with arbitrary content / consistent (max+1+delta, incl. values whose range crosses u32::MAX). Oracle over the decomposed insertions: pairwise distinct, disjoint from IDs of recognised statements, within 1..=4294967295, above max existing (no lock) or >= lock; on exhaustion exit != 0 and still no duplicate / out-of-range ID. Non-trivial = distinct tree where >= 2 files receive insertions and IDs exist, or a boundary-class tree with missing references".to_string(),
         vec!["inconsistent locks (behind the tree) are outside the statement and not generated", "IDs of statements outside the scanned set (comments, ignored) may collide and are not required disjoint"],
     )
 }
